@@ -13,7 +13,8 @@ META = {
                    'enqueue/unlock in the context-switch callbacks (dominance on the CFG), value flow of the '
                    'mutex/queue from myth_cond_wait_body into the callback registers of the switch asm, '
                    'must-pass-through of the re-lock, and shape of signal/broadcast (push only of the dequeued '
-                   'thread, only on its non-null edge, loop exit only on the empty result).',
+                   'thread, only on its non-null edge, loop exit only on the empty result).'
+                   ' The initialiser writes every field the operations read (C05.4).',
     'not_decided': 'that a signal reaches "at least one thread blocked at that moment" under every interleaving '
                    '(schedule exploration), liveness of waiters',
     'assumptions': ['sleep-queue enq/deq are linearizable under their ilock (lock pairing checked in C04.5)',
